@@ -46,6 +46,26 @@ def extract():
     elif re.search(r"Err\(\w+\) => tx\.send\(Msg::End\)", pb): f["failSendsFail"] = False
     else: raise ExtractError("produce: Err arm")
     if not re.search(r"sink\.flush_remaining\(\) \}\)\(\);", pb): raise ExtractError("produce: flush_remaining is the closure's result")
+    # --- Session::pull / Session::recv, arm by arm ----------------------------------------------------
+    ses = impl_block(src, r"impl\s+Session\s*\{")
+    pb2 = _ws(fn_body(ses, "pull"))
+    m = re.fullmatch(r"let current = match self\.lookahead\.take\(\) \{ Some\(c\) => c, None => match self\.recv\(\) \{ "
+                     r"Msg::Chunk\(c\) => (.*?), Msg::End => (.*?), Msg::Fail\(e\) => (.*?), \}, \}; "
+                     r"match self\.recv\(\) \{ Msg::Chunk\(next\) => (.*?) Msg::End => (.*?), Msg::Fail\(e\) => (.*?), \}", pb2)
+    if not m: raise ExtractError("Session::pull: shape")
+    FIRST = {"c": "hold", "return Ok((Vec::new(), true))": "emptyLast", "return Err(e)": "err"}
+    PEEK = {"{ self.lookahead = Some(next); Ok((current, false)) }": "more", "{ Ok((current, false)) }": "moreDrop",
+            "Ok((current, false))": "moreDrop", "Ok((current, true))": "last", "Err(e)": "err",
+            "{ let _ = next; Ok((current, false)) }": "moreDrop"}
+    f["pull"] = {"lookaheadFirst": True,
+                 "firstChunk": FIRST.get(m.group(1), "other"), "firstEnd": FIRST.get(m.group(2), "other"),
+                 "firstFail": FIRST.get(m.group(3), "other"),
+                 "peekChunk": PEEK.get(m.group(4).strip(), "other"), "peekEnd": PEEK.get(m.group(5), "other"),
+                 "peekFail": PEEK.get(m.group(6), "other")}
+    rv = _ws(fn_body(ses, "recv"))
+    if re.fullmatch(r'self\.rx\.recv\(\)\.unwrap_or_else\(\|_\| \{ Msg::Fail\(" "\.to_string\(\)\) \}\)', rv): f["pull"]["closeIsFail"] = True
+    elif re.fullmatch(r"self\.rx\.recv\(\)\.unwrap_or_else\(\|_\| \{ Msg::End \}\)", rv) or rv == "self.rx.recv().unwrap_or(Msg::End)": f["pull"]["closeIsFail"] = False
+    else: raise ExtractError(f"Session::recv: {rv}")
     # --- NextHandler ------------------------------------------------------------------------------
     nimpl = impl_block(src, r"impl\s+HandlerErased\s+for\s+NextHandler\s*\{")
     nb = _ws(fn_body(nimpl, "handle"))
@@ -116,6 +136,9 @@ def render(f):
          f"  {{ sinkFull := .{f['sinkFull']}, flushEmits := {b(f['flushEmits'])}, flushRemainingSkipsEmpty := {b(f['flushRemainingSkipsEmpty'])}, failSendsFail := {b(f['failSendsFail'])},",
          f"    doneChecked := {b(f['doneChecked'])}, doneOnLast := {b(f['doneOnLast'])}, doneOnErr := {b(f['doneOnErr'])}, removeOnLast := {b(f['removeOnLast'])}, removeOnErr := {b(f['removeOnErr'])},",
          f"    lastByte := {f['lastByte']}, syncLastIs := {f['syncLastIs']}, asyncLastIs := {f['asyncLastIs']}, asyncSkipsEmpty := {b(f['asyncSkipsEmpty'])} }}",
+         "def svsPull : Repe.Svs.PullFacts :=",
+         f"  {{ lookaheadFirst := {b(f['pull']['lookaheadFirst'])}, firstChunk := .{f['pull']['firstChunk']}, firstEnd := .{f['pull']['firstEnd']}, firstFail := .{f['pull']['firstFail']},",
+         f"    peekChunk := .{f['pull']['peekChunk']}, peekEnd := .{f['pull']['peekEnd']}, peekFail := .{f['pull']['peekFail']}, closeIsFail := {b(f['pull']['closeIsFail'])} }}",
          "def svsFormats : List (String × Nat) := [" + ", ".join(f'("{k}", {v})' for k, v in f["formats"]) + "]",
          "def svsRoutes : List String := [" + ", ".join(f'"{r}"' for r in f["routes"]) + "]",
          "end Repe.Gen"]
